@@ -494,7 +494,7 @@ class GroupBy:
             key_map=key_map,
         )
 
-    @cached_property
+    @property
     def groups(self):
         """
         Dict mapping group names to row labels.
@@ -511,8 +511,10 @@ class GroupBy:
         indexer = self._group_sort_indexer
         key_count = self.ikey_count[self._labels_argsort]
         group_indexers = np.array_split(indexer, np.cumsum(key_count)[:-1])
+        # copies: the pieces are views of the cached group-sorted indexer, which apply(),
+        # median() and the group-sorted layouts keep using
         return {
-            key: indexer
+            key: indexer.copy()
             for key, indexer in zip(
                 self.result_index[self._labels_argsort], group_indexers
             )
